@@ -1,20 +1,17 @@
 #!/bin/sh
-# tools/seedtest.sh <ID> [check ids...] : confirm a seeded change (demo fails with / passes without, suite passes) and run checks against it
+# tools/seedtest.sh <ID> [check ids...] : confirm a seeded change (demo fails with / passes without, suite passes) and run checks
+# against it on a scratch worktree (PYPOSE_REPO), never touching /repo's working tree.  ID may carry a suffix (C07b -> check C07).
 ID=$1; shift
 S=/tmp/seeded/$ID; [ -d "$S" ] || S=/verif/seeded/$ID
-CHECKS=${@:-$ID}
+CHECKS=${@:-$(echo $ID | cut -c1-3)}
 D=$(mktemp -d /tmp/seedchk.XXXXXX)
 git -C /repo worktree add -q --detach $D HEAD || exit 2
 if ! git -C $D apply $S/patch.diff 2>/tmp/applyerr; then echo "PATCH DOES NOT APPLY: $(cat /tmp/applyerr | head -3)"; git -C /repo worktree remove --force $D; exit 2; fi
 echo "== $ID: $(git -C $D diff --stat | tail -1)"
-( cd $D && PYTHONPATH=$D /venv/bin/python $S/demo.py >/tmp/demo_with.txt 2>&1 ); W=$?
-( cd /repo && PYTHONPATH=/repo /venv/bin/python $S/demo.py >/tmp/demo_without.txt 2>&1 ); WO=$?
+( cd $D && PYTHONPATH=$D /venv/bin/python $S/demo.py >/tmp/demo_with.$ID.txt 2>&1 ); W=$?
+( cd /repo && PYTHONPATH=/repo /venv/bin/python $S/demo.py >/tmp/demo_without.$ID.txt 2>&1 ); WO=$?
 echo "demo: with change exit=$W, without exit=$WO"
 ( cd $D && PYTHONPATH=$D /venv/bin/python -m pytest -q -p no:cacheprovider --timeout=900 tests 2>&1 | tail -1 )
 ( cd $D && PYTHONPATH=$D /venv/bin/python -m pytest -q -p no:cacheprovider --timeout=900 tests 2>&1 | grep FAILED | grep -v "aperpe\|icp_laserscan\|icp_broadcasting\|epnp_\|parameter_dispatch" )
+for c in $CHECKS; do PYPOSE_REPO=$D /verif/check $c quick 2>&1 | grep -v "^KNOWN-FINDING" | grep "VIOLATION\|failed obligation\|quick:\|ENGINE-GAP" | cut -c1-220 | head -8; done
 git -C /repo worktree remove --force $D
-# run the checks against /repo with the patch applied, then undo
-git -C /repo apply $S/patch.diff || exit 2
-for c in $CHECKS; do /verif/check $c quick 2>&1 | grep -v "^KNOWN-FINDING" | grep "VIOLATION\|failed obligation\|quick:" | cut -c1-220 | head -8; done
-git -C /repo checkout -- .
-git -C /repo status --short | head -3
